@@ -156,14 +156,14 @@ func vStepAll(t types.TxType) {
 //verif:obligation C04.a.send tier=quick use=world bounds=world(S,T,G,F),in-block,arbitrary-tx-fields covers=applied,rejected
 //verif:obligation C05.a.send tier=quick use=world bounds=world(S,T,G,F),in-block,arbitrary-tx-fields covers=applied,rejected
 //verif:obligation C06.a.send tier=quick use=world bounds=world(S,T,G,F),in-block,arbitrary-tx-fields covers=applied,rejected
-//verif:obligation C12.b.send tier=thorough use=world bounds=world(S,T,G,F),in-block,arbitrary-tx-fields covers=applied,rejected
+//verif:obligation C12.b.send tier=quick use=world bounds=world(S,T,G,F),in-block,arbitrary-tx-fields covers=applied,rejected
 // One step with a SendTx: real per-type validator + real applyTxOnState from an arbitrary world. Applied =>
 // nonce/epoch lemma (C06), no negative balance/stake part (C04), total of balances+stakes not increased
 // (C04), nobody but the signer loses funds apart from the named exceptions (C05); no panic (C12.b).
 // Each property's run decides its own tagged assertions; panics are decided in every run.
 func H_Step_SendTx() { vStepAll(types.SendTx) }
 
-//verif:obligation C04.a.activation tier=thorough use=world bounds=world(S,T,G,F),in-block,arbitrary-tx-fields covers=applied,rejected
+//verif:obligation C04.a.activation tier=quick use=world bounds=world(S,T,G,F),in-block,arbitrary-tx-fields covers=applied,rejected
 //verif:obligation C05.a.activation tier=thorough use=world bounds=world(S,T,G,F),in-block,arbitrary-tx-fields covers=applied,rejected
 //verif:obligation C06.a.activation tier=thorough use=world bounds=world(S,T,G,F),in-block,arbitrary-tx-fields covers=applied,rejected
 //verif:obligation C12.b.activation tier=quick use=world bounds=world(S,T,G,F),in-block,arbitrary-tx-fields covers=applied,rejected
@@ -173,10 +173,10 @@ func H_Step_SendTx() { vStepAll(types.SendTx) }
 // Each property's run decides its own tagged assertions; panics are decided in every run.
 func H_Step_ActivationTx() { vStepAll(types.ActivationTx) }
 
-//verif:obligation C04.a.invite tier=thorough use=world bounds=world(S,T,G,F),in-block,arbitrary-tx-fields covers=applied,rejected
+//verif:obligation C04.a.invite tier=quick use=world bounds=world(S,T,G,F),in-block,arbitrary-tx-fields covers=applied,rejected
 //verif:obligation C05.a.invite tier=quick use=world bounds=world(S,T,G,F),in-block,arbitrary-tx-fields covers=applied,rejected
-//verif:obligation C06.a.invite tier=thorough use=world bounds=world(S,T,G,F),in-block,arbitrary-tx-fields covers=applied,rejected
-//verif:obligation C12.b.invite tier=thorough use=world bounds=world(S,T,G,F),in-block,arbitrary-tx-fields covers=applied,rejected
+//verif:obligation C06.a.invite tier=quick use=world bounds=world(S,T,G,F),in-block,arbitrary-tx-fields covers=applied,rejected
+//verif:obligation C12.b.invite tier=quick use=world bounds=world(S,T,G,F),in-block,arbitrary-tx-fields covers=applied,rejected
 // One step with a InviteTx: real per-type validator + real applyTxOnState from an arbitrary world. Applied =>
 // nonce/epoch lemma (C06), no negative balance/stake part (C04), total of balances+stakes not increased
 // (C04), nobody but the signer loses funds apart from the named exceptions (C05); no panic (C12.b).
@@ -184,39 +184,39 @@ func H_Step_ActivationTx() { vStepAll(types.ActivationTx) }
 func H_Step_InviteTx() { vStepAll(types.InviteTx) }
 
 //verif:obligation C04.a.kill tier=quick use=world bounds=world(S,T,G,F),in-block,arbitrary-tx-fields covers=applied,rejected
-//verif:obligation C05.a.kill tier=thorough use=world bounds=world(S,T,G,F),in-block,arbitrary-tx-fields covers=applied,rejected
-//verif:obligation C06.a.kill tier=thorough use=world bounds=world(S,T,G,F),in-block,arbitrary-tx-fields covers=applied,rejected
-//verif:obligation C12.b.kill tier=thorough use=world bounds=world(S,T,G,F),in-block,arbitrary-tx-fields covers=applied,rejected
+//verif:obligation C05.a.kill tier=quick use=world bounds=world(S,T,G,F),in-block,arbitrary-tx-fields covers=applied,rejected
+//verif:obligation C06.a.kill tier=quick use=world bounds=world(S,T,G,F),in-block,arbitrary-tx-fields covers=applied,rejected
+//verif:obligation C12.b.kill tier=quick use=world bounds=world(S,T,G,F),in-block,arbitrary-tx-fields covers=applied,rejected
 // One step with a KillTx: real per-type validator + real applyTxOnState from an arbitrary world. Applied =>
 // nonce/epoch lemma (C06), no negative balance/stake part (C04), total of balances+stakes not increased
 // (C04), nobody but the signer loses funds apart from the named exceptions (C05); no panic (C12.b).
 // Each property's run decides its own tagged assertions; panics are decided in every run.
 func H_Step_KillTx() { vStepAll(types.KillTx) }
 
-//verif:obligation C04.a.submitflip tier=thorough use=world tv=off bounds=world(S,T,G,F),in-block,arbitrary-tx-fields covers=applied,rejected
-//verif:obligation C05.a.submitflip tier=thorough use=world tv=off bounds=world(S,T,G,F),in-block,arbitrary-tx-fields covers=applied,rejected
-//verif:obligation C06.a.submitflip tier=thorough use=world tv=off bounds=world(S,T,G,F),in-block,arbitrary-tx-fields covers=applied,rejected
-//verif:obligation C12.b.submitflip tier=thorough use=world tv=off bounds=world(S,T,G,F),in-block,arbitrary-tx-fields covers=applied,rejected
+//verif:obligation C04.a.submitflip tier=quick use=world tv=off bounds=world(S,T,G,F),in-block,arbitrary-tx-fields covers=applied,rejected
+//verif:obligation C05.a.submitflip tier=quick use=world tv=off bounds=world(S,T,G,F),in-block,arbitrary-tx-fields covers=applied,rejected
+//verif:obligation C06.a.submitflip tier=quick use=world tv=off bounds=world(S,T,G,F),in-block,arbitrary-tx-fields covers=applied,rejected
+//verif:obligation C12.b.submitflip tier=quick use=world tv=off bounds=world(S,T,G,F),in-block,arbitrary-tx-fields covers=applied,rejected
 // One step with a SubmitFlipTx: real per-type validator + real applyTxOnState from an arbitrary world. Applied =>
 // nonce/epoch lemma (C06), no negative balance/stake part (C04), total of balances+stakes not increased
 // (C04), nobody but the signer loses funds apart from the named exceptions (C05); no panic (C12.b).
 // Each property's run decides its own tagged assertions; panics are decided in every run.
 func H_Step_SubmitFlipTx() { vStepAll(types.SubmitFlipTx) }
 
-//verif:obligation C04.a.answershash tier=thorough use=world bounds=world(S,T,G,F),in-block,arbitrary-tx-fields covers=applied,rejected
-//verif:obligation C05.a.answershash tier=thorough use=world bounds=world(S,T,G,F),in-block,arbitrary-tx-fields covers=applied,rejected
-//verif:obligation C06.a.answershash tier=thorough use=world bounds=world(S,T,G,F),in-block,arbitrary-tx-fields covers=applied,rejected
-//verif:obligation C12.b.answershash tier=thorough use=world bounds=world(S,T,G,F),in-block,arbitrary-tx-fields covers=applied,rejected
+//verif:obligation C04.a.answershash tier=quick use=world bounds=world(S,T,G,F),in-block,arbitrary-tx-fields covers=applied,rejected
+//verif:obligation C05.a.answershash tier=quick use=world bounds=world(S,T,G,F),in-block,arbitrary-tx-fields covers=applied,rejected
+//verif:obligation C06.a.answershash tier=quick use=world bounds=world(S,T,G,F),in-block,arbitrary-tx-fields covers=applied,rejected
+//verif:obligation C12.b.answershash tier=quick use=world bounds=world(S,T,G,F),in-block,arbitrary-tx-fields covers=applied,rejected
 // One step with a SubmitAnswersHashTx: real per-type validator + real applyTxOnState from an arbitrary world. Applied =>
 // nonce/epoch lemma (C06), no negative balance/stake part (C04), total of balances+stakes not increased
 // (C04), nobody but the signer loses funds apart from the named exceptions (C05); no panic (C12.b).
 // Each property's run decides its own tagged assertions; panics are decided in every run.
 func H_Step_SubmitAnswersHashTx() { vStepAll(types.SubmitAnswersHashTx) }
 
-//verif:obligation C04.a.onlinestatus tier=thorough use=world bounds=world(S,T,G,F),in-block,arbitrary-tx-fields covers=applied,rejected
-//verif:obligation C05.a.onlinestatus tier=thorough use=world bounds=world(S,T,G,F),in-block,arbitrary-tx-fields covers=applied,rejected
+//verif:obligation C04.a.onlinestatus tier=quick use=world bounds=world(S,T,G,F),in-block,arbitrary-tx-fields covers=applied,rejected
+//verif:obligation C05.a.onlinestatus tier=quick use=world bounds=world(S,T,G,F),in-block,arbitrary-tx-fields covers=applied,rejected
 //verif:obligation C06.a.onlinestatus tier=quick use=world bounds=world(S,T,G,F),in-block,arbitrary-tx-fields covers=applied,rejected
-//verif:obligation C12.b.onlinestatus tier=thorough use=world bounds=world(S,T,G,F),in-block,arbitrary-tx-fields covers=applied,rejected
+//verif:obligation C12.b.onlinestatus tier=quick use=world bounds=world(S,T,G,F),in-block,arbitrary-tx-fields covers=applied,rejected
 // One step with a OnlineStatusTx: real per-type validator + real applyTxOnState from an arbitrary world. Applied =>
 // nonce/epoch lemma (C06), no negative balance/stake part (C04), total of balances+stakes not increased
 // (C04), nobody but the signer loses funds apart from the named exceptions (C05); no panic (C12.b).
@@ -233,10 +233,10 @@ func H_Step_OnlineStatusTx() { vStepAll(types.OnlineStatusTx) }
 // Each property's run decides its own tagged assertions; panics are decided in every run.
 func H_Step_KillInviteeTx() { vStepAll(types.KillInviteeTx) }
 
-//verif:obligation C04.a.changegod tier=thorough use=world bounds=world(S,T,G,F),in-block,arbitrary-tx-fields covers=applied,rejected
+//verif:obligation C04.a.changegod tier=quick use=world bounds=world(S,T,G,F),in-block,arbitrary-tx-fields covers=applied,rejected
 //verif:obligation C05.a.changegod tier=quick use=world bounds=world(S,T,G,F),in-block,arbitrary-tx-fields covers=applied,rejected
-//verif:obligation C06.a.changegod tier=thorough use=world bounds=world(S,T,G,F),in-block,arbitrary-tx-fields covers=applied,rejected
-//verif:obligation C12.b.changegod tier=thorough use=world bounds=world(S,T,G,F),in-block,arbitrary-tx-fields covers=applied,rejected
+//verif:obligation C06.a.changegod tier=quick use=world bounds=world(S,T,G,F),in-block,arbitrary-tx-fields covers=applied,rejected
+//verif:obligation C12.b.changegod tier=quick use=world bounds=world(S,T,G,F),in-block,arbitrary-tx-fields covers=applied,rejected
 // One step with a ChangeGodAddressTx: real per-type validator + real applyTxOnState from an arbitrary world. Applied =>
 // nonce/epoch lemma (C06), no negative balance/stake part (C04), total of balances+stakes not increased
 // (C04), nobody but the signer loses funds apart from the named exceptions (C05); no panic (C12.b).
@@ -244,8 +244,8 @@ func H_Step_KillInviteeTx() { vStepAll(types.KillInviteeTx) }
 func H_Step_ChangeGodAddressTx() { vStepAll(types.ChangeGodAddressTx) }
 
 //verif:obligation C04.a.burn tier=quick use=world bounds=world(S,T,G,F),in-block,arbitrary-tx-fields covers=applied,rejected
-//verif:obligation C05.a.burn tier=thorough use=world bounds=world(S,T,G,F),in-block,arbitrary-tx-fields covers=applied,rejected
-//verif:obligation C06.a.burn tier=thorough use=world bounds=world(S,T,G,F),in-block,arbitrary-tx-fields covers=applied,rejected
+//verif:obligation C05.a.burn tier=quick use=world bounds=world(S,T,G,F),in-block,arbitrary-tx-fields covers=applied,rejected
+//verif:obligation C06.a.burn tier=quick use=world bounds=world(S,T,G,F),in-block,arbitrary-tx-fields covers=applied,rejected
 //verif:obligation C12.b.burn tier=quick use=world bounds=world(S,T,G,F),in-block,arbitrary-tx-fields covers=applied,rejected
 // One step with a BurnTx: real per-type validator + real applyTxOnState from an arbitrary world. Applied =>
 // nonce/epoch lemma (C06), no negative balance/stake part (C04), total of balances+stakes not increased
@@ -253,9 +253,9 @@ func H_Step_ChangeGodAddressTx() { vStepAll(types.ChangeGodAddressTx) }
 // Each property's run decides its own tagged assertions; panics are decided in every run.
 func H_Step_BurnTx() { vStepAll(types.BurnTx) }
 
-//verif:obligation C04.a.changeprofile tier=thorough use=world bounds=world(S,T,G,F),in-block,arbitrary-tx-fields covers=applied,rejected
-//verif:obligation C05.a.changeprofile tier=thorough use=world bounds=world(S,T,G,F),in-block,arbitrary-tx-fields covers=applied,rejected
-//verif:obligation C06.a.changeprofile tier=thorough use=world bounds=world(S,T,G,F),in-block,arbitrary-tx-fields covers=applied,rejected
+//verif:obligation C04.a.changeprofile tier=quick use=world bounds=world(S,T,G,F),in-block,arbitrary-tx-fields covers=applied,rejected
+//verif:obligation C05.a.changeprofile tier=quick use=world bounds=world(S,T,G,F),in-block,arbitrary-tx-fields covers=applied,rejected
+//verif:obligation C06.a.changeprofile tier=quick use=world bounds=world(S,T,G,F),in-block,arbitrary-tx-fields covers=applied,rejected
 //verif:obligation C12.b.changeprofile tier=quick use=world bounds=world(S,T,G,F),in-block,arbitrary-tx-fields covers=applied,rejected
 // One step with a ChangeProfileTx: real per-type validator + real applyTxOnState from an arbitrary world. Applied =>
 // nonce/epoch lemma (C06), no negative balance/stake part (C04), total of balances+stakes not increased
@@ -263,9 +263,9 @@ func H_Step_BurnTx() { vStepAll(types.BurnTx) }
 // Each property's run decides its own tagged assertions; panics are decided in every run.
 func H_Step_ChangeProfileTx() { vStepAll(types.ChangeProfileTx) }
 
-//verif:obligation C04.a.deleteflip tier=thorough use=world bounds=world(S,T,G,F),in-block,arbitrary-tx-fields covers=applied,rejected
-//verif:obligation C05.a.deleteflip tier=thorough use=world bounds=world(S,T,G,F),in-block,arbitrary-tx-fields covers=applied,rejected
-//verif:obligation C06.a.deleteflip tier=thorough use=world bounds=world(S,T,G,F),in-block,arbitrary-tx-fields covers=applied,rejected
+//verif:obligation C04.a.deleteflip tier=quick use=world bounds=world(S,T,G,F),in-block,arbitrary-tx-fields covers=applied,rejected
+//verif:obligation C05.a.deleteflip tier=quick use=world bounds=world(S,T,G,F),in-block,arbitrary-tx-fields covers=applied,rejected
+//verif:obligation C06.a.deleteflip tier=quick use=world bounds=world(S,T,G,F),in-block,arbitrary-tx-fields covers=applied,rejected
 //verif:obligation C12.b.deleteflip tier=quick use=world bounds=world(S,T,G,F),in-block,arbitrary-tx-fields covers=applied,rejected
 // One step with a DeleteFlipTx: real per-type validator + real applyTxOnState from an arbitrary world. Applied =>
 // nonce/epoch lemma (C06), no negative balance/stake part (C04), total of balances+stakes not increased
@@ -273,20 +273,20 @@ func H_Step_ChangeProfileTx() { vStepAll(types.ChangeProfileTx) }
 // Each property's run decides its own tagged assertions; panics are decided in every run.
 func H_Step_DeleteFlipTx() { vStepAll(types.DeleteFlipTx) }
 
-//verif:obligation C04.a.delegate tier=thorough use=world bounds=world(S,T,G,F),in-block,arbitrary-tx-fields covers=applied,rejected
-//verif:obligation C05.a.delegate tier=thorough use=world bounds=world(S,T,G,F),in-block,arbitrary-tx-fields covers=applied,rejected
-//verif:obligation C06.a.delegate tier=thorough use=world bounds=world(S,T,G,F),in-block,arbitrary-tx-fields covers=applied,rejected
-//verif:obligation C12.b.delegate tier=thorough use=world bounds=world(S,T,G,F),in-block,arbitrary-tx-fields covers=applied,rejected
+//verif:obligation C04.a.delegate tier=quick use=world bounds=world(S,T,G,F),in-block,arbitrary-tx-fields covers=applied,rejected
+//verif:obligation C05.a.delegate tier=quick use=world bounds=world(S,T,G,F),in-block,arbitrary-tx-fields covers=applied,rejected
+//verif:obligation C06.a.delegate tier=quick use=world bounds=world(S,T,G,F),in-block,arbitrary-tx-fields covers=applied,rejected
+//verif:obligation C12.b.delegate tier=quick use=world bounds=world(S,T,G,F),in-block,arbitrary-tx-fields covers=applied,rejected
 // One step with a DelegateTx: real per-type validator + real applyTxOnState from an arbitrary world. Applied =>
 // nonce/epoch lemma (C06), no negative balance/stake part (C04), total of balances+stakes not increased
 // (C04), nobody but the signer loses funds apart from the named exceptions (C05); no panic (C12.b).
 // Each property's run decides its own tagged assertions; panics are decided in every run.
 func H_Step_DelegateTx() { vStepAll(types.DelegateTx) }
 
-//verif:obligation C04.a.undelegate tier=thorough use=world bounds=world(S,T,G,F),in-block,arbitrary-tx-fields covers=applied,rejected
-//verif:obligation C05.a.undelegate tier=thorough use=world bounds=world(S,T,G,F),in-block,arbitrary-tx-fields covers=applied,rejected
+//verif:obligation C04.a.undelegate tier=quick use=world bounds=world(S,T,G,F),in-block,arbitrary-tx-fields covers=applied,rejected
+//verif:obligation C05.a.undelegate tier=quick use=world bounds=world(S,T,G,F),in-block,arbitrary-tx-fields covers=applied,rejected
 //verif:obligation C06.a.undelegate tier=quick use=world bounds=world(S,T,G,F),in-block,arbitrary-tx-fields covers=applied,rejected
-//verif:obligation C12.b.undelegate tier=thorough use=world bounds=world(S,T,G,F),in-block,arbitrary-tx-fields covers=applied,rejected
+//verif:obligation C12.b.undelegate tier=quick use=world bounds=world(S,T,G,F),in-block,arbitrary-tx-fields covers=applied,rejected
 // One step with a UndelegateTx: real per-type validator + real applyTxOnState from an arbitrary world. Applied =>
 // nonce/epoch lemma (C06), no negative balance/stake part (C04), total of balances+stakes not increased
 // (C04), nobody but the signer loses funds apart from the named exceptions (C05); no panic (C12.b).
@@ -303,9 +303,9 @@ func H_Step_UndelegateTx() { vStepAll(types.UndelegateTx) }
 // Each property's run decides its own tagged assertions; panics are decided in every run.
 func H_Step_KillDelegatorTx() { vStepAll(types.KillDelegatorTx) }
 
-//verif:obligation C04.a.storetoipfs tier=thorough use=world tv=off bounds=world(S,T,G,F),in-block,arbitrary-tx-fields covers=applied,rejected
-//verif:obligation C05.a.storetoipfs tier=thorough use=world tv=off bounds=world(S,T,G,F),in-block,arbitrary-tx-fields covers=applied,rejected
-//verif:obligation C06.a.storetoipfs tier=thorough use=world tv=off bounds=world(S,T,G,F),in-block,arbitrary-tx-fields covers=applied,rejected
+//verif:obligation C04.a.storetoipfs tier=quick use=world tv=off bounds=world(S,T,G,F),in-block,arbitrary-tx-fields covers=applied,rejected
+//verif:obligation C05.a.storetoipfs tier=quick use=world tv=off bounds=world(S,T,G,F),in-block,arbitrary-tx-fields covers=applied,rejected
+//verif:obligation C06.a.storetoipfs tier=quick use=world tv=off bounds=world(S,T,G,F),in-block,arbitrary-tx-fields covers=applied,rejected
 //verif:obligation C12.b.storetoipfs tier=quick use=world tv=off bounds=world(S,T,G,F),in-block,arbitrary-tx-fields covers=applied,rejected
 // One step with a StoreToIpfsTx: real per-type validator + real applyTxOnState from an arbitrary world. Applied =>
 // nonce/epoch lemma (C06), no negative balance/stake part (C04), total of balances+stakes not increased
@@ -314,39 +314,39 @@ func H_Step_KillDelegatorTx() { vStepAll(types.KillDelegatorTx) }
 func H_Step_StoreToIpfsTx() { vStepAll(types.StoreToIpfsTx) }
 
 //verif:obligation C04.a.replenish tier=quick use=world bounds=world(S,T,G,F),in-block,arbitrary-tx-fields covers=applied,rejected
-//verif:obligation C05.a.replenish tier=thorough use=world bounds=world(S,T,G,F),in-block,arbitrary-tx-fields covers=applied,rejected
-//verif:obligation C06.a.replenish tier=thorough use=world bounds=world(S,T,G,F),in-block,arbitrary-tx-fields covers=applied,rejected
-//verif:obligation C12.b.replenish tier=thorough use=world bounds=world(S,T,G,F),in-block,arbitrary-tx-fields covers=applied,rejected
+//verif:obligation C05.a.replenish tier=quick use=world bounds=world(S,T,G,F),in-block,arbitrary-tx-fields covers=applied,rejected
+//verif:obligation C06.a.replenish tier=quick use=world bounds=world(S,T,G,F),in-block,arbitrary-tx-fields covers=applied,rejected
+//verif:obligation C12.b.replenish tier=quick use=world bounds=world(S,T,G,F),in-block,arbitrary-tx-fields covers=applied,rejected
 // One step with a ReplenishStakeTx: real per-type validator + real applyTxOnState from an arbitrary world. Applied =>
 // nonce/epoch lemma (C06), no negative balance/stake part (C04), total of balances+stakes not increased
 // (C04), nobody but the signer loses funds apart from the named exceptions (C05); no panic (C12.b).
 // Each property's run decides its own tagged assertions; panics are decided in every run.
 func H_Step_ReplenishStakeTx() { vStepAll(types.ReplenishStakeTx) }
 
-//verif:obligation C04.a.shortanswers tier=thorough use=world bounds=world(S,T,G,F),in-block,arbitrary-tx-fields covers=applied,rejected
-//verif:obligation C05.a.shortanswers tier=thorough use=world bounds=world(S,T,G,F),in-block,arbitrary-tx-fields covers=applied,rejected
-//verif:obligation C06.a.shortanswers tier=thorough use=world bounds=world(S,T,G,F),in-block,arbitrary-tx-fields covers=applied,rejected
-//verif:obligation C12.b.shortanswers tier=thorough use=world bounds=world(S,T,G,F),in-block,arbitrary-tx-fields covers=applied,rejected
+//verif:obligation C04.a.shortanswers tier=quick use=world bounds=world(S,T,G,F),in-block,arbitrary-tx-fields covers=applied,rejected
+//verif:obligation C05.a.shortanswers tier=quick use=world bounds=world(S,T,G,F),in-block,arbitrary-tx-fields covers=applied,rejected
+//verif:obligation C06.a.shortanswers tier=quick use=world bounds=world(S,T,G,F),in-block,arbitrary-tx-fields covers=applied,rejected
+//verif:obligation C12.b.shortanswers tier=quick use=world bounds=world(S,T,G,F),in-block,arbitrary-tx-fields covers=applied,rejected
 // One step with a SubmitShortAnswersTx: real per-type validator + real applyTxOnState from an arbitrary world. Applied =>
 // nonce/epoch lemma (C06), no negative balance/stake part (C04), total of balances+stakes not increased
 // (C04), nobody but the signer loses funds apart from the named exceptions (C05); no panic (C12.b).
 // Each property's run decides its own tagged assertions; panics are decided in every run.
 func H_Step_SubmitShortAnswersTx() { vStepAll(types.SubmitShortAnswersTx) }
 
-//verif:obligation C04.a.longanswers tier=thorough use=world bounds=world(S,T,G,F),in-block,arbitrary-tx-fields covers=applied,rejected
-//verif:obligation C05.a.longanswers tier=thorough use=world bounds=world(S,T,G,F),in-block,arbitrary-tx-fields covers=applied,rejected
-//verif:obligation C06.a.longanswers tier=thorough use=world bounds=world(S,T,G,F),in-block,arbitrary-tx-fields covers=applied,rejected
-//verif:obligation C12.b.longanswers tier=thorough use=world bounds=world(S,T,G,F),in-block,arbitrary-tx-fields covers=applied,rejected
+//verif:obligation C04.a.longanswers tier=quick use=world,wvrf bounds=world(S,T,G,F),in-block,arbitrary-tx-fields covers=applied,rejected
+//verif:obligation C05.a.longanswers tier=quick use=world,wvrf bounds=world(S,T,G,F),in-block,arbitrary-tx-fields covers=applied,rejected
+//verif:obligation C06.a.longanswers tier=quick use=world,wvrf bounds=world(S,T,G,F),in-block,arbitrary-tx-fields covers=applied,rejected
+//verif:obligation C12.b.longanswers tier=quick use=world,wvrf bounds=world(S,T,G,F),in-block,arbitrary-tx-fields covers=applied,rejected
 // One step with a SubmitLongAnswersTx: real per-type validator + real applyTxOnState from an arbitrary world. Applied =>
 // nonce/epoch lemma (C06), no negative balance/stake part (C04), total of balances+stakes not increased
 // (C04), nobody but the signer loses funds apart from the named exceptions (C05); no panic (C12.b).
 // Each property's run decides its own tagged assertions; panics are decided in every run.
 func H_Step_SubmitLongAnswersTx() { vStepAll(types.SubmitLongAnswersTx) }
 
-//verif:obligation C04.a.evidence tier=thorough use=world bounds=world(S,T,G,F),in-block,arbitrary-tx-fields covers=applied,rejected
-//verif:obligation C05.a.evidence tier=thorough use=world bounds=world(S,T,G,F),in-block,arbitrary-tx-fields covers=applied,rejected
-//verif:obligation C06.a.evidence tier=thorough use=world bounds=world(S,T,G,F),in-block,arbitrary-tx-fields covers=applied,rejected
-//verif:obligation C12.b.evidence tier=thorough use=world bounds=world(S,T,G,F),in-block,arbitrary-tx-fields covers=applied,rejected
+//verif:obligation C04.a.evidence tier=quick use=world bounds=world(S,T,G,F),in-block,arbitrary-tx-fields covers=applied,rejected
+//verif:obligation C05.a.evidence tier=quick use=world bounds=world(S,T,G,F),in-block,arbitrary-tx-fields covers=applied,rejected
+//verif:obligation C06.a.evidence tier=quick use=world bounds=world(S,T,G,F),in-block,arbitrary-tx-fields covers=applied,rejected
+//verif:obligation C12.b.evidence tier=quick use=world bounds=world(S,T,G,F),in-block,arbitrary-tx-fields covers=applied,rejected
 // One step with a EvidenceTx: real per-type validator + real applyTxOnState from an arbitrary world. Applied =>
 // nonce/epoch lemma (C06), no negative balance/stake part (C04), total of balances+stakes not increased
 // (C04), nobody but the signer loses funds apart from the named exceptions (C05); no panic (C12.b).
